@@ -151,6 +151,16 @@ def geo_worlds(tier: str, seed: int, *, convs=W.ALL_CONVS, big: bool = True) -> 
             wd, h = (rng.randint(3, 6), rng.randint(3, 5)) if big else (rng.randint(2, 3), rng.randint(2, 3))
             m = W.random_mesh(rng, wd, h, shape=rng.choice(["rect", "skew", "skew2"]))
             out.append(mesh_world(m, enc=rng.choice(encs), edges=rng.random() < .5, centres=rng.random() < .3))
+    # other legal names for dimensions and coordinate variables (every third world)
+    NAMES = {"cf1d": [{"lat": "latitude", "lon": "longitude", "ydim": "latitude", "xdim": "longitude", "lat_bounds": "latitude_bounds", "lon_bounds": "longitude_bounds"},
+                      {"lat": "nav_lat", "lon": "nav_lon", "ydim": "rows", "xdim": "cols"}],     # coordinates that are not dimension coordinates
+             "cf2d": [{"lat": "nav_lat", "lon": "nav_lon", "ydim": "rows", "xdim": "cols", "lat_bounds": "bounds_lat", "lon_bounds": "bounds_lon"},
+                      {"lat": "gphit", "lon": "glamt", "ydim": "eta_rho", "xdim": "xi_rho"}],
+             "ugrid": [{"face_dim": "cells", "node_dim": "vertices", "edge_dim": "sides", "max_dim": "corner", "two_dim": "pair"},
+                       {"face_dim": "nface", "node_dim": "nnode", "edge_dim": "nedge", "max_dim": "nmax", "two_dim": "two"}]}
+    for k, w in enumerate(out):
+        if k % 3 == 2 and w["conv"] in NAMES and not w.get("names"):
+            w["names"] = dict(NAMES[w["conv"]][(k // 3) % 2])
     # the same worlds held in different ways (see viafile.hold): deterministic in the position
     vias = ["memory", "file", "memory", "dask", "memory", "emsopen", "memory"]
     for k, w in enumerate(out):
